@@ -389,7 +389,7 @@ def forall(lo, hi, fn, pats=None, extra_pats=None):
     return z3.ForAll(ks, full)
 
 
-def exists(lo, hi, fn):
+def exists(lo, hi, fn, pats=None):
     import inspect
     n = len(inspect.signature(fn).parameters)
     if MODE.kind == "conc":
@@ -410,6 +410,12 @@ def exists(lo, hi, fn):
     finally:
         _DEPTH[0] -= 1
     guard = to_z3_bool(conj(*[between(lo, k, hi) for k in ks]))
+    if pats is not None:
+        # triggers for the universal that this existential becomes when it is negated (a goal) or sits in an antecedent
+        p = pats(*ks)
+        p = [x for x in (p if isinstance(p, (list, tuple)) else [p]) if _usable_pattern(x, ks)]
+        if p:
+            return z3.Exists(ks, z3.And(guard, body), patterns=p)
     return z3.Exists(ks, z3.And(guard, body))
 
 
